@@ -460,6 +460,11 @@ def run_plumbing(R, tonic, comp, enabled):
         bb, t = cr.call1(name='from_encoding_header')
         base, names = field_path(cr.origin(t['args'][1]))
         R.check(names[-1:] == ['accept_compression_encodings'], 'C05.R5', 'cli:response-checked-against-accept', site(cr, bb), 'enabled set = %s' % show(cr.origin(t['args'][1])))
+        # the check precedes every other outcome of create_response (also the trailers-only early returns)
+        others = [x for x in writers_of(cr, 0) if x != bb and not (cr.term(x)['k'] == 'call' and cr.term(x).get('name') == 'from_residual' and term_contains(cr.origin(cr.term(x)['args'][0]), lambda y: is_call(y, name='from_encoding_header')))]
+        notdom = [x for x in others if not cr.dominates(bb, x)]
+        R.check(not notdom, 'C05.R5', 'cli:encoding-check-before-any-outcome', site(cr, notdom[0]) if notdom else site(cr, bb),
+                'from_encoding_header dominates every write of the result (%d writers): %r — a trailers-only response with a grpc-encoding that is not enabled must still be refused' % (len(others), not notdom))
         fam = [cr] + [c for c in tonic.children(cr) if c.kind == 'closure']
         nr = [(fb, bb, t) for fb in fam for bb, t in fb.calls(name='new_response')]
         R.check(len(nr) == 1, 'C05.R5', 'cli:new_response', site(cr), 'Streaming::new_response sites: %d' % len(nr))
